@@ -25,7 +25,7 @@ func (fr *Frame) stdlibCall(in *ssa.Call, callee *ssa.Function, args []*GVal) *G
 		ex.addFact(ex.typeFacts(r, types.Typ[types.String]))
 		return &GVal{T: r, Typ: in.Type()}
 	}
-	slen := func(t *Term) *Term { return App("str.len", SInt, t) }
+	slen := func(t *Term) *Term { return App("gs.len", SInt, t) }
 	switch name {
 	case "errors.New":
 		use("errors.New returns a non-nil error that is not a SyntaxError")
@@ -53,27 +53,27 @@ func (fr *Frame) stdlibCall(in *ssa.Call, callee *ssa.Function, args []*GVal) *G
 		cnt := fr.term(args[1])
 		fr.oblige("safe", "strings.Repeat-count-non-negative", []string{"C05", "C17"}, Le(IntLit(0), cnt), in.Pos())
 		s := fr.term(args[0])
-		ex.p.DeclareFun("str.repeat", []*Sort{SStr, SInt}, SStr)
-		r := App("str.repeat", SStr, s, cnt)
+		ex.p.DeclareFun("gs.repeat", []*Sort{SStr, SInt}, SStr)
+		r := App("gs.repeat", SStr, s, cnt)
 		ex.addFact(Implies(Eq(slen(s), IntLit(1)), Eq(slen(r), cnt)))
 		ex.addFact(Le(IntLit(0), slen(r)))
 		return &GVal{T: r, Typ: in.Type()}
 	case "strings.Replace":
 		use("strings.Replace(s, old, new, n) == str.replace(s, old, new) for n < 0; never panics")
-		ex.p.DeclareFun("str.replaceAll", []*Sort{SStr, SStr, SStr}, SStr)
-		r := App("str.replaceAll", SStr, fr.term(args[0]), fr.term(args[1]), fr.term(args[2]))
+		ex.p.DeclareFun("gs.replaceAll", []*Sort{SStr, SStr, SStr}, SStr)
+		r := App("gs.replaceAll", SStr, fr.term(args[0]), fr.term(args[1]), fr.term(args[2]))
 		ex.addFact(Le(IntLit(0), slen(r)))
 		return &GVal{T: r, Typ: in.Type()}
 	case "strings.HasPrefix", "strings.HasSuffix", "strings.Contains":
 		use(name + " is a total predicate on two strings")
-		fn := map[string]string{"strings.HasPrefix": "str.prefixof", "strings.HasSuffix": "str.suffixof", "strings.Contains": "str.contains"}[name]
+		fn := map[string]string{"strings.HasPrefix": "gs.prefixof", "strings.HasSuffix": "gs.suffixof", "strings.Contains": "gs.contains"}[name]
 		ex.p.DeclareFun(fn, []*Sort{SStr, SStr}, SBool)
 		return &GVal{T: App(fn, SBool, fr.term(args[0]), fr.term(args[1])), Typ: in.Type()}
 	case "strings.Join":
 		use("strings.Join is a total function of the element sequence and the separator")
 		a := fr.term(args[0])
-		ex.p.DeclareFun("str.join", []*Sort{a.S, SStr}, SStr)
-		r := App("str.join", SStr, a, fr.term(args[1]))
+		ex.p.DeclareFun("gs.join", []*Sort{a.S, SStr}, SStr)
+		r := App("gs.join", SStr, a, fr.term(args[1]))
 		ex.addFact(Le(IntLit(0), slen(r)))
 		return &GVal{T: r, Typ: in.Type()}
 	case "unicode/utf8.DecodeRuneInString":
@@ -83,7 +83,7 @@ func (fr *Frame) stdlibCall(in *ssa.Call, callee *ssa.Function, args []*GVal) *G
 		ex.p.DeclareFun("utf8.width", []*Sort{SStr}, SInt)
 		r := App("utf8.rune", SBV32, s)
 		wd := App("utf8.width", SInt, s)
-		b0 := App("str.at", SBV8, s, IntLit(0))
+		b0 := App("gs.at", SBV8, s, IntLit(0))
 		ascii := App("bvult", SBool, b0, BVLit(0x80, 8))
 		ex.addFact(And(
 			Implies(Eq(slen(s), IntLit(0)), And(Eq(wd, IntLit(0)), Eq(r, BVLit(0xFFFD, 32)))),
@@ -124,7 +124,7 @@ func (fr *Frame) stdlibCall(in *ssa.Call, callee *ssa.Function, args []*GVal) *G
 		switch callee.Name() {
 		case "WriteString":
 			s := fr.term(args[1])
-			r := App("str.cat", SStr, cur, s)
+			r := App("gs.cat", SStr, cur, s)
 			ex.addFact(Eq(slen(r), Add(slen(cur), slen(s))))
 			fr.bufWrite(p, r, in)
 			return &GVal{Tuple: []*GVal{{T: slen(s), Typ: types.Typ[types.Int]}, {T: mk("ErrNil", SErr), Typ: errType()}}, Typ: in.Type()}
